@@ -26,9 +26,10 @@ import NV.Driver.SvcStart
 import NV.Driver.Wedge
 import NV.Driver.SlowRefresh
 import NV.Driver.E2E
+import NV.Driver.EpEq
 namespace NV
 
-def steppers : List (List String → Option String) := [stepCore, stepCap, stepRaceSoak, stepListen, stepUpfault, Disc.stepDiscovery, Config.stepConfig, stepCache, stepFwd, stepProf, stepTTL, stepFS, stepClientInfo, stepEcs, LocalDrv.stepLocal, stepManager, stepRouter, HostsRefreshDrv.stepHostsRefresh, MgrX.stepMgrX, stepSvcStart, stepWedge, stepSlowRefresh, stepE2E]
+def steppers : List (List String → Option String) := [stepCore, stepCap, stepRaceSoak, stepListen, stepUpfault, Disc.stepDiscovery, Config.stepConfig, stepCache, stepFwd, stepProf, stepTTL, stepFS, stepClientInfo, stepEcs, LocalDrv.stepLocal, stepManager, stepRouter, HostsRefreshDrv.stepHostsRefresh, MgrX.stepMgrX, stepSvcStart, stepWedge, stepSlowRefresh, stepE2E, stepEpEq]
 
 def step (line : String) : String :=
   let toks := line.splitOn " "
